@@ -15,6 +15,12 @@ import (
 func forge(kind string, ev *sim.Event, s *sim.Session, rng *rand.Rand) []byte {
 	m := ev.Message
 	data := []byte{0x00} // completion code normal
+	// "<kind>@<cc>": the forged response carries completion code <cc> instead of 00h (a refusal the BMC never issued)
+	if i := strings.LastIndex(kind, "@"); i >= 0 {
+		cc, _ := strconv.Atoi(kind[i+1:])
+		data[0] = byte(cc)
+		kind = kind[:i]
+	}
 	if m.NetFn == 0x2c {
 		data = append(data, m.Body)
 	}
